@@ -1,4 +1,4 @@
-/- Helper lemmas for C19 (`Model/Cache.lean`). -/
+/- Helper lemmas for C19 (`Model/Cache.lean`).  `dirs` (directories planted in the cache directory) is arbitrary everywhere. -/
 import Rustic.Model.Cache
 import Rustic.Lemmas.Backends
 namespace Rustic.Cache
@@ -26,86 +26,464 @@ theorem fget_fdel_none {c : FS} {q : Path} (p : Path) (h : fget c q = none) : fg
   · subst e; exact fget_fdel_same c q
   · rwa [fget_fdel_ne c e]
 
-theorem cReadFull_cWrite {L : Nat} (c : FS) {t t' : FileType} {id id' : Name} (hl : id.length = L) (hl' : id'.length = L)
-    (d : Bytes) :
-    cReadFull (cWrite c t id d) t' id' = if t' = t ∧ id' = id then some d else cReadFull c t' id' := by
-  unfold cReadFull cWrite
-  by_cases e : t' = t ∧ id' = id
-  · obtain ⟨e1, e2⟩ := e; subst e1; subst e2; simp [fget_fput_same]
-  · have hne : cpath t' id' ≠ cpath t id := fun h => e (cpath_inj h)
-    have hnt : cpath t' id' ≠ ctmp t id := cpath_ne_ctmp (by rw [hl, hl'])
-    rw [fget_fput_ne _ d hne, fget_fdel_ne _ hnt, fget_fput_ne _ d hnt]
-    simp [e]
+/-! ### symlinks -/
 
-theorem cReadFull_cRemove (c : FS) (t t' : FileType) (id id' : Name) :
-    cReadFull (cRemove c t id) t' id' = if t' = t ∧ id' = id then none else cReadFull c t' id' := by
-  unfold cReadFull cRemove
-  by_cases e : t' = t ∧ id' = id
-  · obtain ⟨e1, e2⟩ := e; subst e1; subst e2; simp [fget_fdel_same]
-  · have hne : cpath t' id' ≠ cpath t id := fun h => e (cpath_inj h)
-    rw [fget_fdel_ne _ hne]; simp [e]
+theorem lget_ldel_same (l : List (Path × Option Bytes)) (p : Path) : lget (ldel l p) p = none := by
+  induction l with
+  | nil => rfl
+  | cons e rest ih =>
+    obtain ⟨q, v⟩ := e
+    by_cases h : q = p
+    · simp [ldel, h, ih]
+    · simp [ldel, lget, h, ih]
 
-theorem cReadFull_removeAll_some {c : FS} {t t' : FileType} {id' : Name} {d : Bytes} (es : List (Name × Nat))
-    (h : cReadFull (removeAll c t es) t' id' = some d) : cReadFull c t' id' = some d := by
+theorem lget_ldel_ne (l : List (Path × Option Bytes)) {p q : Path} (h : q ≠ p) : lget (ldel l p) q = lget l q := by
+  induction l with
+  | nil => rfl
+  | cons e rest ih =>
+    obtain ⟨r, v⟩ := e
+    by_cases h1 : r = p
+    · have h2 : r ≠ q := fun e => h (e ▸ h1)
+      simp [ldel, lget, h1, ih]
+      intro e; exact absurd e.symm h
+    · by_cases h2 : r = q
+      · subst h2; simp [ldel, lget, h1]
+      · simp [ldel, lget, h1, h2, ih]
+
+/-- `ldel` only removes -/
+theorem lget_ldel_of {l : List (Path × Option Bytes)} {p q : Path} {v : Option Bytes} (h : lget (ldel l p) q = some v) :
+    lget l q = some v := by
+  by_cases e : q = p
+  · subst e; rw [lget_ldel_same] at h; cases h
+  · rwa [lget_ldel_ne l e] at h
+
+theorem lget_cons_same (l : List (Path × Option Bytes)) (p : Path) (v : Option Bytes) : lget ((p, v) :: l) p = some v := by
+  simp [lget]
+
+theorem lget_cons_ne (l : List (Path × Option Bytes)) {p q : Path} (v : Option Bytes) (h : q ≠ p) :
+    lget ((p, v) :: l) q = lget l q := by
+  have : p ≠ q := fun e => h e.symm
+  simp [lget, this]
+
+theorem mem_of_lget {l : List (Path × Option Bytes)} {p : Path} {v : Option Bytes} (h : lget l p = some v) : (p, v) ∈ l := by
+  induction l with
+  | nil => simp [lget] at h
+  | cons e rest ih =>
+    obtain ⟨q, w⟩ := e
+    by_cases e1 : q = p
+    · simp [lget, e1] at h; subst e1; subst h; exact List.mem_cons_self
+    · simp [lget, e1] at h; exact List.mem_cons_of_mem _ (ih h)
+
+theorem entryBytes_of_nolink {c : CD} {p : Path} (h : lget c.links p = none) : entryBytes c p = fget c.files p := by
+  simp [entryBytes, h]
+
+/-! ### cache reads in terms of `cHit` -/
+
+theorem cHit_of_dir {dirs : List Path} (c : CD) {t : FileType} {id : Name} (h : hasDir dirs (cpath t id) = true) :
+    cHit dirs c t id = none := by
+  simp [cHit, h]
+
+/-- a dangling symlink at the entry path: nothing to serve -/
+theorem cHit_of_link (dirs : List Path) {c : CD} {t : FileType} {id : Name} (h : lget c.links (cpath t id) = some none) :
+    cHit dirs c t id = none := by
+  unfold cHit
+  split
+  · rfl
+  · simp [entryBytes, h]
+
+theorem cHit_of_parent (dirs : List Path) {c : CD} {t : FileType} {id : Name} (h : (parentObj c t id).isSome = true) :
+    cHit dirs c t id = none := by
+  simp [cHit, h]
+
+theorem cHit_some {dirs : List Path} {c : CD} {t : FileType} {id : Name} {d : Bytes} (h : cHit dirs c t id = some d) :
+    parentObj c t id = none ∧ hasDir dirs (cpath t id) = false ∧ entryBytes c (cpath t id) = some d := by
+  unfold cHit at h
+  by_cases hd : ((parentObj c t id).isSome || hasDir dirs (cpath t id)) = true
+  · simp [hd] at h
+  · simp only [hd, Bool.false_eq_true, if_false] at h
+    simp only [Bool.or_eq_true, not_or, Bool.not_eq_true, Option.isSome_eq_false_iff, Option.isNone_iff_eq_none] at hd
+    exact ⟨hd.1, hd.2, h⟩
+
+/-- `Cache::read_full` answers `Ok(Some(d))` exactly when a regular file with bytes `d` is at (or linked from) the entry
+path. -/
+theorem cReadFull_hit_iff (dirs : List Path) (c : CD) (t : FileType) (id : Name) (d : Bytes) :
+    cReadFull dirs c t id = .hit d ↔ cHit dirs c t id = some d := by
+  unfold cReadFull cHit
+  cases hp : parentObj c t id with
+  | some b => cases b <;> simp
+  | none =>
+    by_cases hd : hasDir dirs (cpath t id) = true
+    · simp [hd]
+    · simp only [hd, Bool.false_eq_true, if_false, Bool.or_self, Option.isSome_none, reduceCtorEq]
+      cases entryBytes c (cpath t id) <;> simp
+
+theorem cReadFull_dir {dirs : List Path} (c : CD) {t : FileType} {id : Name} (hp : parentObj c t id = none)
+    (h : hasDir dirs (cpath t id) = true) : cReadFull dirs c t id = .error := by
+  simp [cReadFull, h, hp]
+
+/-- a ranged cache read in terms of `cHit` (non-empty range): served from the entry, or an error past its end -/
+theorem cReadPartial_of_hit {dirs : List Path} {c : CD} {t : FileType} {id : Name} {d : Bytes}
+    (h : cHit dirs c t id = some d) (off : Nat) {len : Nat} (hlen : 0 < len) :
+    cReadPartial dirs c t id off len = if off + len ≤ d.length then .hit ((d.drop off).take len) else .error := by
+  have hne : len ≠ 0 := by omega
+  obtain ⟨hp, hd, hf⟩ := cHit_some h
+  simp [cReadPartial, hp, hd, hf, hne]
+
+/-- no entry (nothing, a directory, a dangling symlink, a blocked parent): a miss or an error — never a hit -/
+theorem cReadPartial_of_none {dirs : List Path} {c : CD} {t : FileType} {id : Name}
+    (h : cHit dirs c t id = none) (off : Nat) {len : Nat} (hlen : 0 < len) :
+    cReadPartial dirs c t id off len = .miss ∨ cReadPartial dirs c t id off len = .error := by
+  have hne : len ≠ 0 := by omega
+  unfold cReadPartial
+  unfold cHit at h
+  cases hp : parentObj c t id with
+  | some b => cases b <;> simp
+  | none =>
+    by_cases hd : hasDir dirs (cpath t id) = true
+    · simp [hd, hne]
+    · simp only [hp, hd, Bool.false_eq_true, if_false, Bool.or_self, Option.isSome_none] at h
+      simp [hd, h]
+
+/-! ### cache writes and removals -/
+
+/-- the cache write of `(t, id)` reaches the entry path: the parent directories can be made, no directory or dangling
+symlink at the temp path, no directory at the entry path -/
+def writes (dirs : List Path) (c : CD) (t : FileType) (id : Name) : Bool :=
+  (parentObj c t id).isNone && !hasDir dirs (ctmp t id) && !(lget c.links (ctmp t id) == some none) &&
+    !hasDir dirs (cpath t id)
+
+/-- the cache write of `(t, id)` fails at the temp file: a directory or a dangling symlink at the temp path -/
+def tmpBlocked (dirs : List Path) (c : CD) (t : FileType) (id : Name) : Bool :=
+  hasDir dirs (ctmp t id) || (lget c.links (ctmp t id) == some none)
+
+theorem short_ne_cpath {q : Path} (hq : q.length ≤ 2) (t : FileType) (id : Name) : q ≠ cpath t id := by
+  intro e; rw [e] at hq; simp [cpath] at hq
+
+theorem short_ne_ctmp {q : Path} (hq : q.length ≤ 2) (t : FileType) (id : Name) : q ≠ ctmp t id := by
+  intro e; rw [e] at hq; simp [ctmp] at hq
+
+/-- What `open(q)` finds after a cache write, for every path but the temp path: as before, except at the entry path when
+the write got through. -/
+theorem entryBytes_cWrite (dirs : List Path) (c : CD) (t : FileType) (id : Name) (d : Bytes) {q : Path}
+    (hq : q ≠ ctmp t id) :
+    entryBytes (cWrite dirs c t id d) q =
+      if q = cpath t id ∧ writes dirs c t id = true then some d else entryBytes c q := by
+  have hpt : cpath t id ≠ ctmp t id := cpath_ne_ctmp rfl
+  unfold cWrite
+  by_cases h0 : (parentObj c t id).isSome = true
+  · have hw : writes dirs c t id = false := by
+      cases h : parentObj c t id with
+      | none => rw [h] at h0; simp at h0
+      | some b => simp [writes, h]
+    simp [h0, hw]
+  · have h0n : (parentObj c t id).isNone = true := by
+      cases h : parentObj c t id with
+      | none => rfl
+      | some b => rw [h] at h0; simp at h0
+    by_cases h1 : hasDir dirs (ctmp t id) = true
+    · simp [h0, h1, writes]
+    · simp only [h0, h1, Bool.false_eq_true, if_false]
+      cases hl : lget c.links (ctmp t id) with
+      | none =>
+        by_cases h2 : hasDir dirs (cpath t id) = true
+        · simp only [h2, if_true, writes, hl, Bool.not_true, Bool.and_false, Bool.false_eq_true, and_false, if_false]
+          unfold entryBytes
+          simp only
+          rw [fget_fput_ne _ d hq]
+        · simp only [h2, Bool.false_eq_true, if_false]
+          have hw : writes dirs c t id = true := by simp [writes, h0n, h1, hl, h2]
+          by_cases e : q = cpath t id
+          · subst e
+            simp [hw, entryBytes, lget_ldel_same, cWriteFile, fget_fput_same]
+          · simp only [e, false_and, if_false]
+            unfold entryBytes cWriteFile
+            simp only
+            rw [lget_ldel_ne _ e, fget_fput_ne _ d e, fget_fdel_ne _ hq, fget_fput_ne _ d hq]
+      | some v =>
+        cases v with
+        | none =>
+          simp only [writes, hl, beq_self_eq_true, Bool.not_true, Bool.and_false, Bool.false_and, Bool.false_eq_true,
+            and_false, if_false]
+          unfold entryBytes unlink
+          simp only
+          rw [lget_ldel_ne _ hq]
+        | some b =>
+          by_cases h2 : hasDir dirs (cpath t id) = true
+          · simp only [h2, if_true, writes, Bool.not_true, Bool.and_false, Bool.false_eq_true, and_false, if_false]
+            unfold entryBytes
+            simp only
+            rw [lget_cons_ne _ _ hq, lget_ldel_ne _ hq]
+          · simp only [h2, Bool.false_eq_true, if_false]
+            have hw : writes dirs c t id = true := by simp [writes, h0n, h1, hl, h2]
+            by_cases e : q = cpath t id
+            · subst e
+              simp [hw, entryBytes, lget_cons_same]
+            · simp only [e, false_and, if_false]
+              unfold entryBytes
+              simp only
+              rw [lget_cons_ne _ _ e, lget_ldel_ne _ e, lget_ldel_ne _ hq, fget_fdel_ne _ e]
+
+/-- cache writes and removals touch entry and temp paths only: what sits where the parent directories belong stays -/
+theorem lget_cWrite_short (dirs : List Path) (c : CD) (t : FileType) (id : Name) (d : Bytes) {q : Path} (hq : q.length ≤ 2) :
+    lget (cWrite dirs c t id d).links q = lget c.links q := by
+  have h1 := short_ne_cpath hq t id
+  have h2 := short_ne_ctmp hq t id
+  unfold cWrite
+  split
+  · rfl
+  · split
+    · rfl
+    · split
+      · exact lget_ldel_ne _ h2
+      · split
+        · show lget ((ctmp t id, some d) :: ldel c.links (ctmp t id)) q = _
+          rw [lget_cons_ne _ _ h2, lget_ldel_ne _ h2]
+        · show lget ((cpath t id, some d) :: ldel (ldel c.links (ctmp t id)) (cpath t id)) q = _
+          rw [lget_cons_ne _ _ h1, lget_ldel_ne _ h1, lget_ldel_ne _ h2]
+      · split
+        · rfl
+        · exact lget_ldel_ne _ h1
+
+theorem fget_cWrite_short (dirs : List Path) (c : CD) (t : FileType) (id : Name) (d : Bytes) {q : Path} (hq : q.length ≤ 2) :
+    fget (cWrite dirs c t id d).files q = fget c.files q := by
+  have h1 := short_ne_cpath hq t id
+  have h2 := short_ne_ctmp hq t id
+  unfold cWrite
+  split
+  · rfl
+  · split
+    · rfl
+    · split
+      · rfl
+      · split
+        · rfl
+        · exact fget_fdel_ne _ h1
+      · split
+        · exact fget_fput_ne _ d h2
+        · show fget (cWriteFile c.files t id d) q = _
+          unfold cWriteFile
+          rw [fget_fput_ne _ d h1, fget_fdel_ne _ h2, fget_fput_ne _ d h2]
+
+theorem parentAt_congr {c c' : CD} {q : Path} (h1 : lget c'.links q = lget c.links q) (h2 : fget c'.files q = fget c.files q) :
+    parentAt c' q = parentAt c q := by
+  unfold parentAt; rw [h1, h2]
+
+theorem parentObj_cWrite (dirs : List Path) (c : CD) (t t' : FileType) (id id' : Name) (d : Bytes) :
+    parentObj (cWrite dirs c t id d) t' id' = parentObj c t' id' := by
+  unfold parentObj
+  rw [parentAt_congr (lget_cWrite_short dirs c t id d (q := [t'.dirname]) (by simp))
+        (fget_cWrite_short dirs c t id d (q := [t'.dirname]) (by simp)),
+      parentAt_congr (lget_cWrite_short dirs c t id d (q := [t'.dirname, id'.take 2]) (by simp))
+        (fget_cWrite_short dirs c t id d (q := [t'.dirname, id'.take 2]) (by simp))]
+
+theorem lget_cRemove_short (dirs : List Path) (c : CD) (t : FileType) (id : Name) {q : Path} (hq : q.length ≤ 2) :
+    lget (cRemove dirs c t id).links q = lget c.links q := by
+  unfold cRemove
+  split
+  · rfl
+  · exact lget_ldel_ne _ (short_ne_cpath hq t id)
+
+theorem fget_cRemove_short (dirs : List Path) (c : CD) (t : FileType) (id : Name) {q : Path} (hq : q.length ≤ 2) :
+    fget (cRemove dirs c t id).files q = fget c.files q := by
+  unfold cRemove
+  split
+  · rfl
+  · exact fget_fdel_ne _ (short_ne_cpath hq t id)
+
+theorem parentObj_cRemove (dirs : List Path) (c : CD) (t t' : FileType) (id id' : Name) :
+    parentObj (cRemove dirs c t id) t' id' = parentObj c t' id' := by
+  unfold parentObj
+  rw [parentAt_congr (lget_cRemove_short dirs c t id (q := [t'.dirname]) (by simp))
+        (fget_cRemove_short dirs c t id (q := [t'.dirname]) (by simp)),
+      parentAt_congr (lget_cRemove_short dirs c t id (q := [t'.dirname, id'.take 2]) (by simp))
+        (fget_cRemove_short dirs c t id (q := [t'.dirname, id'.take 2]) (by simp))]
+
+/-- After `Cache::write_bytes` every entry is as before, except the written one, which holds the new bytes — if the
+write got through (otherwise it is as before too). -/
+theorem cHit_cWrite {L : Nat} (dirs : List Path) (c : CD) {t t' : FileType} {id id' : Name} (hl : id.length = L)
+    (hl' : id'.length = L) (d : Bytes) :
+    cHit dirs (cWrite dirs c t id d) t' id' =
+      if (t' = t ∧ id' = id) ∧ writes dirs c t id = true then some d else cHit dirs c t' id' := by
+  have hnt : cpath t' id' ≠ ctmp t id := cpath_ne_ctmp (by rw [hl, hl'])
+  unfold cHit
+  rw [parentObj_cWrite, entryBytes_cWrite dirs c t id d hnt]
+  by_cases hb : ((parentObj c t' id').isSome || hasDir dirs (cpath t' id')) = true
+  · -- no entry there, before and after; if it is the written file itself, the write does not get through
+    have : ¬((t' = t ∧ id' = id) ∧ writes dirs c t id = true) := by
+      rintro ⟨⟨e1, e2⟩, hw⟩
+      subst e1; subst e2
+      simp only [writes, Bool.and_eq_true, Bool.not_eq_eq_eq_not, Bool.not_true, Option.isNone_iff_eq_none] at hw
+      simp [hw.1.1.1, hw.2] at hb
+    simp [hb, this]
+  · simp only [hb, Bool.false_eq_true, if_false]
+    by_cases e : t' = t ∧ id' = id
+    · obtain ⟨e1, e2⟩ := e; subst e1; subst e2; simp
+    · have hne : cpath t' id' ≠ cpath t id := fun h => e (cpath_inj h)
+      simp [e, hne]
+
+theorem entryBytes_cRemove (dirs : List Path) (c : CD) (t : FileType) (id : Name) (q : Path) :
+    entryBytes (cRemove dirs c t id) q =
+      if q = cpath t id ∧ ((parentObj c t id).isSome || hasDir dirs (cpath t id)) = false then none else entryBytes c q := by
+  unfold cRemove
+  by_cases h : ((parentObj c t id).isSome || hasDir dirs (cpath t id)) = true
+  · simp [h]
+  · simp only [h, Bool.false_eq_true, if_false]
+    by_cases e : q = cpath t id
+    · subst e; simp [entryBytes, lget_ldel_same, fget_fdel_same]
+    · simp only [e, false_and, if_false]
+      unfold entryBytes
+      simp only
+      rw [lget_ldel_ne _ e, fget_fdel_ne _ e]
+
+theorem cHit_cRemove (dirs : List Path) (c : CD) (t t' : FileType) (id id' : Name) :
+    cHit dirs (cRemove dirs c t id) t' id' = if t' = t ∧ id' = id then none else cHit dirs c t' id' := by
+  unfold cHit
+  rw [parentObj_cRemove, entryBytes_cRemove]
+  by_cases hb : ((parentObj c t' id').isSome || hasDir dirs (cpath t' id')) = true
+  · simp [hb]
+  · simp only [hb, Bool.false_eq_true, if_false]
+    by_cases e : t' = t ∧ id' = id
+    · obtain ⟨e1, e2⟩ := e; subst e1; subst e2
+      have hb' : ((parentObj c t' id').isSome || hasDir dirs (cpath t' id')) = false := by simpa using hb
+      simp [hb']
+    · have hne : cpath t' id' ≠ cpath t id := fun h => e (cpath_inj h)
+      simp [e, hne]
+
+/-- `Cache::remove` only deletes. -/
+theorem cHit_cRemove_some {dirs : List Path} {c : CD} {t t' : FileType} {id id' : Name} {d : Bytes}
+    (h : cHit dirs (cRemove dirs c t id) t' id' = some d) : cHit dirs c t' id' = some d := by
+  rw [cHit_cRemove] at h
+  by_cases e : t' = t ∧ id' = id
+  · simp [e] at h
+  · simpa [e] using h
+
+theorem cHit_removeAll_some {dirs : List Path} {c : CD} {t t' : FileType} {id' : Name} {d : Bytes} (es : List (Name × Nat))
+    (h : cHit dirs (removeAll dirs c t es) t' id' = some d) : cHit dirs c t' id' = some d := by
   induction es generalizing c with
   | nil => exact h
-  | cons e rest ih =>
-    have := ih (c := cRemove c t e.1) h
-    unfold cReadFull cRemove at this
-    exact fget_fdel_some this
+  | cons e rest ih => exact cHit_cRemove_some (ih (c := cRemove dirs c t e.1) h)
 
-theorem cReadFull_removeAll_none_of_none {c : FS} {t t' : FileType} {id' : Name} (es : List (Name × Nat))
-    (h : cReadFull c t' id' = none) : cReadFull (removeAll c t es) t' id' = none := by
-  induction es generalizing c with
-  | nil => exact h
-  | cons e rest ih =>
-    apply ih
-    unfold cReadFull at h ⊢
-    unfold cRemove
-    exact fget_fdel_none _ h
+theorem cHit_removeAll_none_of_none {dirs : List Path} {c : CD} {t t' : FileType} {id' : Name} (es : List (Name × Nat))
+    (h : cHit dirs c t' id' = none) : cHit dirs (removeAll dirs c t es) t' id' = none := by
+  cases h' : cHit dirs (removeAll dirs c t es) t' id' with
+  | none => rfl
+  | some d => rw [cHit_removeAll_some es h'] at h; cases h
 
-theorem removeAll_removes {c : FS} {t : FileType} {es : List (Name × Nat)} {e : Name × Nat} (he : e ∈ es) :
-    cReadFull (removeAll c t es) t e.1 = none := by
+theorem removeAll_removes {dirs : List Path} {c : CD} {t : FileType} {es : List (Name × Nat)} {e : Name × Nat} (he : e ∈ es) :
+    cHit dirs (removeAll dirs c t es) t e.1 = none := by
   induction es generalizing c with
   | nil => cases he
   | cons x rest ih =>
     rcases List.mem_cons.1 he with h | h
     · subst h
-      show cReadFull (removeAll (cRemove c t e.1) t rest) t e.1 = none
-      apply cReadFull_removeAll_none_of_none
-      unfold cReadFull cRemove
-      exact fget_fdel_same _ _
+      show cHit dirs (removeAll dirs (cRemove dirs c t e.1) t rest) t e.1 = none
+      apply cHit_removeAll_none_of_none
+      rw [cHit_cRemove]; simp
     · exact ih h
 
-theorem cEntry_cpath {L : Nat} (t : FileType) {id : Name} (hn : isCacheName L id = true) (d : Bytes) :
-    cEntry L t (cpath t id, d) = some (id, d.length) := by
-  simp [cEntry, cpath, hn]
+/-! ### dangling symlinks only disappear (no operation creates one) -/
 
-theorem mem_cList {L : Nat} {c : FS} {t : FileType} {id : Name} {d : Bytes} (hn : isCacheName L id = true)
-    (h : cReadFull c t id = some d) : (id, d.length) ∈ cList L c t := by
+theorem cWrite_dangling {dirs : List Path} {c : CD} {t : FileType} {id : Name} {d : Bytes} {p : Path}
+    (h : lget (cWrite dirs c t id d).links p = some none) : lget c.links p = some none := by
+  unfold cWrite at h
+  split at h
+  · exact h
+  · split at h
+    · exact h
+    · split at h
+      · exact lget_ldel_of h
+      · split at h
+        · by_cases e : p = ctmp t id
+          · subst e; rw [lget_cons_same] at h; cases h
+          · rw [lget_cons_ne _ _ e] at h; exact lget_ldel_of h
+        · by_cases e : p = cpath t id
+          · subst e; rw [lget_cons_same] at h; cases h
+          · rw [lget_cons_ne _ _ e] at h; exact lget_ldel_of (lget_ldel_of h)
+      · split at h
+        · exact h
+        · exact lget_ldel_of h
+
+theorem cRemove_dangling {dirs : List Path} {c : CD} {t : FileType} {id : Name} {p : Path}
+    (h : lget (cRemove dirs c t id).links p = some none) : lget c.links p = some none := by
+  unfold cRemove at h
+  split at h
+  · exact h
+  · exact lget_ldel_of h
+
+theorem removeAll_dangling {dirs : List Path} {c : CD} {t : FileType} (es : List (Name × Nat)) {p : Path}
+    (h : lget (removeAll dirs c t es).links p = some none) : lget c.links p = some none := by
+  induction es generalizing c with
+  | nil => exact h
+  | cons e rest ih => exact cRemove_dangling (ih (c := cRemove dirs c t e.1) h)
+
+/-! ### the cache listing -/
+
+theorem cEntry_cpath {L : Nat} {dirs : List Path} {c : CD} (t : FileType) {id : Name} (hn : isCacheName L id = true) (d : Bytes)
+    (hp : parentObj c t id = none) (hd : hasDir dirs (cpath t id) = false) (hk : hasLink c (cpath t id) = false) :
+    cEntry L dirs c t (cpath t id, d) = some (id, d.length) := by
+  have hd' : hasDir dirs [t.dirname, List.take 2 id, id] = false := hd
+  have hk' : hasLink c [t.dirname, List.take 2 id, id] = false := hk
+  simp [cEntry, cpath, hn, hd', hk', hp]
+
+theorem cLinkEntry_cpath {L : Nat} {dirs : List Path} {c : CD} (t : FileType) {id : Name} (hn : isCacheName L id = true) (d : Bytes)
+    (hp : parentObj c t id = none) (hd : hasDir dirs (cpath t id) = false) (hk : lget c.links (cpath t id) = some (some d)) :
+    cLinkEntry L dirs c t (cpath t id, some d) = some (id, d.length) := by
+  have hd' : hasDir dirs [t.dirname, List.take 2 id, id] = false := hd
+  have hk' : lget c.links [t.dirname, List.take 2 id, id] = some (some d) := hk
+  simp [cLinkEntry, cpath, hn, hd', hk', hp]
+
+/-- a directory is never a cache entry (`is_file`) -/
+theorem cEntry_dir {L : Nat} {dirs : List Path} {c : CD} (t : FileType) {p : Path} (d : Bytes) (hd : hasDir dirs p = true) :
+    cEntry L dirs c t (p, d) = none := by
+  unfold cEntry
+  split
+  · simp [hd]
+  · rfl
+
+/-- whatever a read can serve — a regular file or a symlink to one — is listed -/
+theorem mem_cList {L : Nat} {dirs : List Path} {c : CD} {t : FileType} {id : Name} {d : Bytes}
+    (hn : isCacheName L id = true) (h : cHit dirs c t id = some d) : (id, d.length) ∈ cList L dirs c t := by
+  obtain ⟨hp, hd, hf⟩ := cHit_some h
   unfold cList
-  rw [List.mem_filterMap]
-  exact ⟨(cpath t id, d), mem_of_fget h, cEntry_cpath t hn d⟩
+  rw [List.mem_append]
+  unfold entryBytes at hf
+  cases hl : lget c.links (cpath t id) with
+  | none =>
+    rw [hl] at hf
+    left
+    rw [List.mem_filterMap]
+    exact ⟨(cpath t id, d), mem_of_fget hf, cEntry_cpath t hn d hp hd (by simp [hasLink, hl])⟩
+  | some v =>
+    rw [hl] at hf
+    simp only at hf
+    subst hf
+    right
+    rw [List.mem_filterMap]
+    exact ⟨(cpath t id, some d), mem_of_lget hl, cLinkEntry_cpath t hn d hp hd hl⟩
 
 /-- What survives a clean-up has the size the listing reports for that id. -/
-theorem removeNotInList_survivor {L : Nat} {c : FS} {t : FileType} {list : List (Name × Nat)} {id : Name} {d : Bytes}
-    (hn : isCacheName L id = true) (h : cReadFull (removeNotInList L c t list) t id = some d) :
+theorem removeNotInList_survivor {L : Nat} {dirs : List Path} {c : CD} {t : FileType} {list : List (Name × Nat)} {id : Name}
+    {d : Bytes} (hn : isCacheName L id = true) (h : cHit dirs (removeNotInList L dirs c t list) t id = some d) :
     sizeOf? list id = some d.length := by
   unfold removeNotInList at h
-  have h0 := cReadFull_removeAll_some _ h
+  have h0 := cHit_removeAll_some _ h
   have hm := mem_cList hn h0
   by_cases hk : keepEntry list (id, d.length) = true
   · simpa [keepEntry] using hk
-  · have : (id, d.length) ∈ (cList L c t).filter (fun e => !keepEntry list e) := by
+  · have : (id, d.length) ∈ (cList L dirs c t).filter (fun e => !keepEntry list e) := by
       rw [List.mem_filter]; exact ⟨hm, by simp [hk]⟩
-    have := removeAll_removes (c := c) (t := t) this
+    have := removeAll_removes (dirs := dirs) (c := c) (t := t) this
     simp only at this
     rw [this] at h; cases h
 
 /-- The clean-up only deletes. -/
-theorem removeNotInList_sub {L : Nat} {c : FS} {t t' : FileType} {list : List (Name × Nat)} {id : Name} {d : Bytes}
-    (h : cReadFull (removeNotInList L c t list) t' id = some d) : cReadFull c t' id = some d :=
-  cReadFull_removeAll_some _ h
+theorem removeNotInList_sub {L : Nat} {dirs : List Path} {c : CD} {t t' : FileType} {list : List (Name × Nat)} {id : Name}
+    {d : Bytes} (h : cHit dirs (removeNotInList L dirs c t list) t' id = some d) : cHit dirs c t' id = some d :=
+  cHit_removeAll_some _ h
+
+theorem removeNotInList_dangling {L : Nat} {dirs : List Path} {c : CD} {t : FileType} {list : List (Name × Nat)} {p : Path}
+    (h : lget (removeNotInList L dirs c t list).links p = some none) : lget c.links p = some none :=
+  removeAll_dangling _ h
 
 theorem isCacheName_length {L : Nat} {id : Name} (h : isCacheName L id = true) : id.length = L := by
   simp [isCacheName] at h; exact h.1
